@@ -148,6 +148,9 @@ impl Property for C02 {
         let mut subset = InfoSubset::all();
         for t in &case.texts {
             let text = render_pieces(&keys, t);
+            if f7_guard(&mut rep, &case.dic, &case.cfg, &text, ctx.strict) {
+                continue;
+            }
             tok.reset().push_str(&text);
             match tok.do_tokenize() {
                 Ok(()) => {}
@@ -307,6 +310,9 @@ impl Property for C02 {
         // morpheme-level accessors on a fresh analysis of the first text
         if let Some(t) = case.texts.first() {
             let text = render_pieces(&keys, t);
+            if f7_guard(&mut rep, &case.dic, &case.cfg, &text, ctx.strict) {
+                return rep;
+            }
             if let Ok(ml) = analyze(&dict, &text, Mode::C, None) {
                 if !ml.is_empty() {
                     let first = ml.get(0).total_cost() as i64;
